@@ -183,7 +183,7 @@ example : ∃ s : St, s.supplies ≠ [] ∧ s.borrows ≠ [] ∧ s.supAmtC.empty
   refine ⟨⟨by simp [keys], ?_, ?_, CohC.fresh _, CohC.fresh _⟩, ⟨by simp [keys], ?_, CohC.fresh _, CohC.fresh _⟩⟩
   · intro k hk; simp [keys] at hk; exact hd k (Or.inl hk)
   · refine Or.inr ⟨[("WETH", 11000)], ?_, rfl⟩
-    simp [specSupAmt, scratchMap, supValOf, Env.statusOf, Env.priceOf, c13Env, optRes, aget_cons, NumCtx.mul, hcx,
+    simp [specSupAmt, scratchMap, supValOf, Env.statusOf, Env.priceOf, c13Env, optRes, NumCtx.mul, hcx,
       bind, Except.bind, pure, Except.pure]
     norm_num
   · intro k hk; simp [keys] at hk; exact hd k (Or.inr hk)
